@@ -680,11 +680,15 @@ class UniformOutputInitializer(keras.initializers.Initializer):
 
   def get_config(self):
     """Standard Keras config for serialization."""
+    keypoints = self.keypoints
+    if isinstance(keypoints, np.ndarray):
+      # As for the layer's input_keypoints: a plain list survives every format.
+      keypoints = keypoints.tolist()
     return {
         "output_min": self.output_min,
         "output_max": self.output_max,
         "monotonicity": self.monotonicity,
-        "keypoints": self.keypoints,
+        "keypoints": keypoints,
     }  # pyformat: disable
 
 
